@@ -163,7 +163,11 @@ func setup(c *eng.Ctx, cf cfg, evk rlwe.EvaluationKeySet, useOwnKeys bool) *env 
 	wantSI := cf.Mode == "bfv"
 	switch cf.Eval {
 	case "shallow":
-		e.ev = bgv.NewEvaluator(params, evk, wantSI).ShallowCopy()
+		base := bgv.NewEvaluator(params, evk, wantSI)
+		e.ev = base.ShallowCopy()
+		c.Check(e.ev.ScaleInvariant == base.ScaleInvariant, "C05|Evaluator.ShallowCopy|mode-flag-dropped", func() string {
+			return fmt.Sprintf("ShallowCopy().ScaleInvariant = %v (receiver: %v); %v", e.ev.ScaleInvariant, base.ScaleInvariant, cf)
+		})
 	case "withkey":
 		base := bgv.NewEvaluator(params, rlwe.NewMemEvaluationKeySet(nil), wantSI)
 		e.ev = base.WithKey(evk)
@@ -359,7 +363,17 @@ func drawCfg(r *eng.Rand, tier string, i int) (cfg, bool) {
 		nq = 7 + r.N(2)
 	}
 	skip := map[uint64]bool{cf.T: true}
+	// one configuration in six uses the whole documented domain t <= Q[0] only: later primes may be smaller than t
+	mixed := r.N(6) == 0
+	lo0 := lo
 	for j := 0; j < nq; j++ {
+		lo = lo0
+		if mixed && j > 0 {
+			lo = cf.LogN + 4
+			if lo < 20 {
+				lo = 20
+			}
+		}
 		b := lo + r.N(62-lo)
 		switch r.N(6) {
 		case 0:
@@ -428,9 +442,9 @@ func drawCfg(r *eng.Rand, tier string, i int) (cfg, bool) {
 func cases(tier string, seed int64) []eng.Case {
 	r := eng.NewRand("c05-cases", seed)
 	var out []eng.Case
-	nprog, nerr := 1200, 32
+	nprog, nerr := 800, 32
 	if tier == "thorough" {
-		nprog, nerr = 8000, 96
+		nprog, nerr = 6000, 96
 	}
 	for i := 0; i < nprog; i++ {
 		cf, ok := drawCfg(r, tier, i)
@@ -466,7 +480,7 @@ func cases(tier string, seed int64) []eng.Case {
 func init() {
 	eng.Register(&eng.Monitor{
 		ID: "C05", Level: "exploration",
-		Rule: "cases = seeded (logN 4..11, plaintext modulus of 8..60 bits incl. cyclotomic order < 2N, 2..8 Q primes of 20..61 bits all larger than t, 1..2 P primes, default/sparse ternary secret, BGV or BFV evaluator obtained by NewEvaluator/ShallowCopy/WithKey, sk or pk encryption); each case runs 2..6 seeded straight-line programs of up to 16 (quick) / 24 (thorough) steps over a pool of ciphertexts; every step is one public bgv.Evaluator call and is judged on its own (model over Z_t, recorded level/degree/scale, Decode(Decrypt(.)), measured noise vs one-step worst-case bound), so the failing step is the shrunk witness. A step is only executed when its worst-case noise bound, computed from the measured noise of its operands, is below Q_level/4. distinct key = (mode, gap>1, normalised program text = sequence of method(operand kind, receiver placement, scale-equal?, level/degree relations)); non-trivial = multiplicative depth >= 2 or >= 2 different operand kinds or at least one step with unequal operand scales. 'errors' cases call every documented failure condition and require an error (no panic, no value).",
+		Rule: "cases = seeded (logN 4..11, plaintext modulus of 8..60 bits incl. cyclotomic order < 2N, 2..8 Q primes of 20..61 bits (Q[0] > t always; in 5 of 6 configurations every prime > t, in the others later primes may be smaller than t), 1..2 P primes, default/sparse ternary secret, BGV or BFV evaluator obtained by NewEvaluator/ShallowCopy/WithKey, sk or pk encryption); each case runs 2..6 seeded straight-line programs of up to 16 (quick) / 24 (thorough) steps over a pool of ciphertexts; every step is one public bgv.Evaluator call and is judged on its own (model over Z_t, recorded level/degree/scale, Decode(Decrypt(.)), measured noise vs one-step worst-case bound), so the failing step is the shrunk witness. A step is only executed when its worst-case noise bound, computed from the measured noise of its operands, is below Q_level/4. distinct key = (mode, gap>1, normalised program text = sequence of method(operand kind, receiver placement, scale-equal?, level/degree relations)); non-trivial = multiplicative depth >= 2 or >= 2 different operand kinds or at least one step with unequal operand scales. 'errors' cases call every documented failure condition and require an error (no panic, no value).",
 		Cases: cases,
 		Assumptions: []string{
 			"model arithmetic (bits.Mul64/Div64, math/big) is correct",
